@@ -150,6 +150,19 @@ pub fn gen_nid(rng: &mut Rng, thorough: bool, out: &mut String) {
                 .unwrap_or("panic".into())
         )
         .unwrap();
+        // the same while the thread is unwinding from a panic (an id formatted for a panic message
+        // or by a shutdown guard)
+        if i % 8 == 0 {
+            let u = crate::obs::during_unwind(|| (format!("{id}"), format!("{id:?}"), serde_json::to_string(&id).ok()));
+            match u {
+                Some((d, g, j)) => {
+                    writeln!(out, "nid op=display in={} out={}", hx(&raw), hx(d.as_bytes())).unwrap();
+                    writeln!(out, "nid op=debug in={} out={}", hx(&raw), hx(g.as_bytes())).unwrap();
+                    writeln!(out, "nid op=ser in={} out={}", hx(&raw), j.map(|s| hx(s.as_bytes())).unwrap_or("panic".into())).unwrap();
+                }
+                None => writeln!(out, "nid op=display in={} out=panic", hx(&raw)).unwrap(),
+            }
+        }
         // deserialisation of derived strings
         let h = hex::encode(raw);
         let mut strs: Vec<String> = vec![
@@ -534,6 +547,22 @@ pub fn ck_line(kind: &str, inp: &[u8], out: &mut String) {
                 Some(w) => odd = Some(w),
                 None => {}
             }
+        }
+    }
+    // ... nor on whether the thread is unwinding from a panic at that moment
+    if r.is_some() {
+        let w = crate::obs::during_unwind(|| {
+            let mut b = inp.to_vec();
+            let _ = if kind == "secp" {
+                CombinedKey::secp256k1_from_bytes(&mut b).is_ok()
+            } else {
+                CombinedKey::ed25519_from_bytes(&mut b).is_ok()
+            };
+            b
+        });
+        match w {
+            Some(w) if w != buf => odd = Some(w),
+            _ => {}
         }
     }
     if let Some(w) = odd {
